@@ -225,9 +225,17 @@ def one_recording(res, sp):
     sp3.pop("apis", None)
     inp3 = {"recording": sp["name"], "spec": sp3, "label": "third-session-refused-then-later-period"}
     before = P.tree_digest(b.top)
-    outc, rc, err = P.run_writer(sp3, b.top)
+    log3 = os.path.join(b.work, "log3.txt")
+    outc, rc, err = P.run_writer(sp3, b.top, log=log3)
     after = P.tree_digest(b.top)
     oc = {o["call"]: o for o in outc}
+    # close() is what publishes: no rename / unlink of a data file may happen after close() has returned (e.g. only
+    # when the process exits and the interpreter frees what is left)
+    late = [(e["kind"], e["path"]) for e in P.parse_log(log3, b.top)
+            if e.get("call") is None and e["kind"] in ("rename", "unlink") and P.RE_DATA.match(os.path.basename(e["path"] or ""))]
+    if late:
+        res.violation("published-after-close-returned", "a data file was renamed / removed after close() had returned (the "
+                      "writer was not finalized by close but only when the process ended)", inp3, "nothing after close", late[:4])
     changed = sorted(f for f in before if P.is_final_data(f) and after.get(f) != before[f])
     if changed:
         res.violation("finalized-file-modified", "a finalized data file was modified or replaced by a later session", inp3,
